@@ -18,7 +18,7 @@ OVERLAY_SVC = {"fs/source/verif_labels.go": "fs/source/verif_labels.go",
                "service/verif_labels_cri_test.go": "service/verif_labels_cri_test.go"}
 INTERNAL = ("TamperLogExplains", "ExtraKeepsPreset")
 ALLRD = '{"default", "cri", "chain"}'
-FORMULAS = ("AllLabelsValid", "RoundTrip", "NeighbourUrlsPositional", "PrefetchSizeRoundTrips", "UrlsOwnOrNone", "MalformedMandatoryRejected")
+FORMULAS = ("AllLabelsValid", "RoundTrip", "NeighbourUrlsPositional", "PrefetchSizeRoundTrips", "UrlsOwnOrNone", "ReaderLeavesLabels", "RoundTripSecondRead", "MalformedMandatoryRejected")
 
 
 def gen(run, cfg, ov, name, timeout=900):
@@ -59,6 +59,8 @@ def classify(c):
         parts.append("repeated-digest")
     if len(man) > 50:
         parts.append("long")
+    if any(500 <= e["d"] < 900 for e in man):
+        parts.append("mixed-digests")
     if c["ref"] >= 3:
         parts.append("concrete-ref")
     if len(parts) == 1:
@@ -86,6 +88,9 @@ def check(run):
         "references: two abstract ones (25 / 300 bytes) everywhere + six concrete shapes (name:tag, name@digest, name:tag@digest, "
         "host:port/name:tag, docker.io/library/..., with and without digest) over 3 manifests, compared byte for byte; "
         "malformed reference spellings: 4 derived + host-less 'ubuntu:22.04', 'app:v1', ' '",
+        "every case reads the SAME label map twice (purity: map unchanged; second read must round-trip as well)",
+        "mixed digest lengths: one long-family pattern with a sha512 digest (135 bytes) as the first misfit of layer 1's layers label, "
+        "followed by sha256 digests that would still fit",
         "image ref length <= 300 bytes (the writer does not validate the reference label; refs near 4 KiB are not modelled)",
         "an empty-string URL read back for an absent URL list ([\"\"]) counts as no URL (only consumer: ipfs.GetCID prefix match)",
         "a URL list that does not fit into one label is represented by its longest fitting prefix (labels.Validate has priority)",
@@ -138,6 +143,9 @@ def check(run):
                 ("Labels_mc_edge.cfg", {"ExtraStripsPreset": "FALSE"}, ["PrefetchSizeRoundTrips"]),
                 ("Labels_mc_edge.cfg", {"ExtraStripsPreset": "FALSE", "MatchedOnly": "TRUE"}, ["RoundTrip", "NeighbourUrlsPositional"], ("PrefetchSizeRoundTrips",)),
                 ("Labels_mc_long.cfg", {"WholeDigests": "FALSE", "LongNs": "{60}"}, ["RoundTrip"]),
+                ("Labels_mc_long.cfg", {"StopAtFirstMisfit": "FALSE", "LongNs": "{57}"}, ["RoundTrip"]),
+                ("Labels_mc_tamper.cfg", {"ReaderPure": "FALSE", "MaxTamper": "0"}, ["ReaderLeavesLabels", "RoundTripSecondRead"]),
+                ("Labels_mc_tamper.cfg", {"ReaderPure": "FALSE", "MaxTamper": "0"}, ["RoundTripSecondRead"], ("ReaderLeavesLabels",)),
                 ("Labels_mc_full.cfg", {"UrlIdx": '"child"'}, ["RoundTrip", "NeighbourUrlsPositional"]),
                 ("Labels_mc_full.cfg", {"ReaderSkipsTarget": "FALSE", "MaxLayers": "2"}, ["RoundTrip"]),
                 ("Labels_mc_tamper.cfg", {"ReaderResetsUrls": "FALSE", "MaxTamper": "1", "NVariants": "1"}, ["UrlsOwnOrNone"]),
